@@ -1946,7 +1946,30 @@ def analytic_profile_guard(P, rep, rule="EXPR.massconserving.guard"):
             continue
         a, cnd, l_, r_ = guard
         ok = (cnd["op"] in ("<", "<=") and l_ == tmin_a and r_ == amb_a) or (cnd["op"] in (">", ">=") and l_ == amb_a and r_ == tmin_a)
+        # the value tested must be the value handed over: a write of either end member inside the guarded region (between the
+        # test and the call) makes the guard speak about a different number than the profile receives
+        stale = None
         if ok:
+            names = set()
+            for arg in (args[tmin_i], args[amb_i]):
+                for y in G.walk(arg):
+                    if y.get("k") == "DeclRefExpr" and P.d(y["r"]).get("storage") in ("local", "param"):
+                        names.add(y["r"])
+            for w in G.walk(a["c"][1]):
+                tgt = None
+                if w.get("k") in ("BinaryOperator", "CompoundAssignOperator") and w.get("op") in norm.ASSIGN_OPS and w.get("c"):
+                    tgt = w["c"][0]
+                elif w.get("k") == "UnaryOperator" and w.get("op") in ("++", "--") and w.get("c"):
+                    tgt = w["c"][0]
+                if tgt is not None and any(y.get("k") == "DeclRefExpr" and y.get("r") in names for y in G.walk(tgt)):
+                    stale = w
+                    break
+        if stale is not None:
+            rep.violation(rule, "`%s` inside the region guarded by `%s`" % (norm.render(P, stale)[:80], norm.render(P, cnd)[:60]), G.nloc(stale), G.qn,
+                          norm.render(P, stale)[:120], "the guard compared the end members before this write, the profile receives them after it: "
+                          "`minimum < ambient` is no longer known for the values handed to get_temperature_analytic",
+                          key=rule + "|stale", witness="a young, slow slab whose minimum temperature lies just below the adiabat at the tested depth")
+        elif ok:
             rep.ok(rule, "analytic profile under `%s`, the end members it is called with" % norm.render(P, cnd)[:60], G.nloc(a), G.qn)
         else:
             rep.violation(rule, "the analytic profile of (%s, %s) is used under `%s`" % (tmin_a, amb_a, norm.render(P, cnd)[:80]), G.nloc(a), G.qn,
